@@ -25,7 +25,23 @@ Status on the current tree:
 import NetqasmVerif.Lemmas.BellLoopSpec
 import NetqasmVerif.Lemmas.BellAlloc
 import NetqasmVerif.Lemmas.BellContext
+import NetqasmVerif.Lemmas.BellSeqAlloc
 import NetqasmVerif.Props.BellObligations
+/-
+OVERVIEW — what is proved for which API form × hardware × role (addressing part; (a)–(c) hold for all)
+
+| API form                                   | hardware                         | role     | emitted path            | addressing theorem                                   | status |
+|--------------------------------------------|----------------------------------|----------|-------------------------|------------------------------------------------------|--------|
+| recv_keep / _with_info, no post routine    | generic, ≥ 2 comm. qubits        | receiver | wait-all loop           | waitall_loop_runs, emitted_waitall_addressing        | whole loop, every n; addresses 0 while the code keeps `set <reg> 0` (F14 open): per_pair_addressing for `loaded`, _partial + f14_counterexample for the emitted variant |
+| recv_rsp / _with_info                      | any                              | receiver | wait-all loop           | same                                                 | same (F14) |
+| recv_keep / _with_info, post routine       | any (sequential or not)          | receiver | per-pair loop (post)    | post_path_loop_runs, per_pair_addressing_post(_empty) | FULL: whole loop, every n, arbitrary post routine under PostOk / every straight-line routine |
+| recv_keep / _with_info, no post routine    | single comm. qubit (NV, generic(1)) | receiver | per-pair loop + move | post_path_loop_runs (mv = true), move_path_ids       | FULL: corrections on qubit 0 = pair i's id there, then move to n−1−i |
+| recv_measure                               | any                              | receiver | request + wait only     | expect_off / postprocess_table                       | no quantum correction; classical table proved; public API assumes Z (F32 open) |
+| create_keep (all modes), create_rsp, create_measure | any                     | creator  | same paths, no block    | creator_emits_no_correction                          | FULL: no rotation for any configuration |
+| any receive form, expect_phi_plus = False  | any                              | receiver | same paths, no block    | expect_off                                           | FULL |
+Hardware enters through `singleComm` (single_comm_configs); the block-level results
+(block_applies_correction, block_in_context, emitted_block_in_loop) remain as lemmas of the loop theorems.
+-/
 namespace NQ.C10
 open NQ NQ.Bell NQ.BellObl
 
@@ -544,5 +560,185 @@ theorem single_comm_corrects_once :
     [("generic", 1), ("nv", 1), ("nv", 2), ("nv", 5)].all (fun (kind, k) =>
       ((emit Gen.data ⟨"keep", singleComm kind k, false, 1, true, [], [], 0, 1, 1, 0⟩).getD []).countP Cmd.isRot == 4)
       = true := by decide
+
+/-! ## (i) the WHOLE per-pair loop of the post-routine / sequential and move-to-memory paths -/
+
+/-- **`post_path_loop_runs`.** For EVERY configuration with corrections expected, the emission of
+`recv_keep` with a post routine / sequential (`mv = false`) or on single-communication-qubit hardware
+without post routine (`mv = true`) is
+`request; set L 0; l3: beq L n l4; WAIT; BLOCK; ; MOVE; add L L 1; jmp l3; l4:` (`seqLoopCode … [] …`).
+Put ANY command list `post` — the user's post routine — behind the correction block, under two
+explicit hypotheses:
+  * it does not redefine the loop's exit label `l4` nor (move path) the label `x4` of the move code;
+  * `PostOk`: run in place in iteration i it arrives at the command behind it without having changed
+    the pair register `L` (its quantum events are described by `Q i`; branches inside are allowed).
+Then for every number of pairs n, every Bell tuple `bvs` in the results array and every qubit-id array
+`idv`, the program executed from its first command terminates behind `l4`, and its events are those of
+the iterations i = 0 … n−1 IN ORDER, iteration i being: the rotations selected by pair i's Bell value
+on `t.pick (ids[i])` and on no other qubit, then the post routine's events, then (move path) the move
+of the state to memory qubit n−1−i. The wait for pair i's slice of the results array is a no-op of the
+semantics; its two repeated-addition loops are executed. All register/label side conditions are
+derived from the allocation. -/
+theorem post_path_loop_runs (d : Data) (c : Config) (mv : Bool) (code0 : List Cmd)
+    (he : c.expect = true) (h : emitSeq d c mv = some code0) (k : Nat) (hK : d.ly.okFields = (k : Int)) :
+    ∃ (L : Nat) (l3 l4 x4 : String) (W B T : List Cmd),
+      code0 = seqLoopCode (.recvEpr c.remote c.sock (some c.ids) c.res) L c.n l3 l4 W B [] T ∧
+      W.length = 19 ∧ B.length = 20 ∧
+      ∀ (post : List Cmd), Cmd.label l4 ∉ post → (mv = true → Cmd.label x4 ∉ post) →
+      ∀ (mem : Mem) (bvs idv resv : List Int), bvs.length = c.n → mem c.ids = some idv →
+        mem c.res = some resv → idv.length = bvs.length → ResultsHold d.ly resv bvs →
+      ∀ (Q : Nat → List Ev → Prop),
+        PostOk (seqLoopCode (.recvEpr c.remote c.sock (some c.ids) c.res) L c.n l3 l4 W B post T) mem 43
+          post.length L Q →
+      ∀ (regs : Nat → Int), ∃ regs' all,
+        Reaches (seqLoopCode (.recvEpr c.remote c.sock (some c.ids) c.res) L c.n l3 l4 W B post T) mem
+          ⟨0, regs, []⟩
+          ⟨(seqLoopCode (.recvEpr c.remote c.sock (some c.ids) c.res) L c.n l3 l4 W B post T).length, regs', all⟩ ∧
+        IterEvents (SeqIter d.sp (if mv then d.tMove else d.tPost) Q mv c.n bvs idv) 0 c.n all := by
+  unfold emitSeq at h
+  cases h0 : allocSeq c.act c.labels with
+  | none => simp [h0] at h
+  | some p0 =>
+    obtain ⟨a, u4⟩ := p0
+    cases h1 : seqCorr d c mv a u4 with
+    | none => simp [h0, h1] at h
+    | some p1 =>
+      obtain ⟨corrCmds, u9⟩ := p1
+      cases h2 : seqTail c mv a u9 with
+      | none => simp [h0, h1, h2] at h
+      | some p2 =>
+        obtain ⟨tailCmds, u10⟩ := p2
+        cases h3 : newLabel u10 "LOOP" with
+        | none => simp [h0, h1, h2, h3] at h
+        | some p3 =>
+          cases h4 : newLabel p3.2 "LOOP_EXIT" with
+          | none => simp [h0, h1, h2, h3, h4] at h
+          | some p4 =>
+            simp only [h0, h1, h2, h3, h4, Option.some.injEq] at h
+            obtain ⟨I, J', l1, l2, x1, x2, x3, hd, hlB, hb⟩ := seqCorr_shape h0 rfl he h1
+            subst hb
+            obtain ⟨hnew, hin9, h49⟩ := seqCorr_labels he h1
+            obtain ⟨⟨hsJ, heJ, hLs, hLt, hLe, hLJ⟩, hlW, ha4⟩ := allocSeq_facts h0
+            obtain ⟨f3, e3⟩ := newLabel_fresh h3
+            obtain ⟨f4, e4⟩ := newLabel_fresh h4
+            rw [e3] at f4
+            simp only [List.mem_cons, not_or] at f4
+            have h910 := seqTail_labels h2
+            -- the move code (or nothing)
+            have hT : ∃ r0 r1 x4, tailCmds = (if mv then moveTailCode a.L r0 r1 (c.n : Int) x4 else []) ∧
+                r0 ≠ a.L ∧ r1 ≠ a.L ∧ r0 ≠ r1 ∧ (mv = true → x4 ∉ u9 ∧ x4 ∈ u10) := by
+              rcases seqTail_shape h2 with ⟨hm, ht, _⟩ | ⟨hm, r0, r1, x4, ht, hu, hx, h0L, h1L, h01⟩
+              · exact ⟨a.L + 1, a.L + 2, "", by simp [hm, ht], by omega, by omega, by omega,
+                  fun hc => by simp [hm] at hc⟩
+              · exact ⟨r0, r1, x4, by simp [hm, ht], h0L, h1L, h01, fun _ => ⟨hx, by simp [hu]⟩⟩
+            obtain ⟨r0, r1, x4, hTe, h0L, h1L, h01, hx4⟩ := hT
+            subst hTe
+            refine ⟨a.L, p3.1, p4.1, x4, waitBlockCode d.ly a.L a.s a.t a.e a.J a.a1 a.a2 a.b1 a.b2 c.res,
+              corrBlockCode (if mv then d.tMove else d.tPost) d.ly d.sp a.q a.b a.L I J' l1 l2 x1 x2 x3
+                c.ids c.res,
+              (if mv then moveTailCode a.L r0 r1 (c.n : Int) x4 else []), ?_, rfl, corrBlockCode_length .., ?_⟩
+            · rw [← h]; simp [seqLoopCode, loopEnd, List.append_assoc]
+            · intro post hpl4 hpx4 mem bvs idv resv hn hmi hmr hlen hres Q hpost regs
+              have hwf : SeqWf a.L a.q a.b I J' a.s a.t a.e a.J r0 r1 :=
+                ⟨hd, hsJ, heJ, hLs, hLt, hLe, hLJ, h0L, h1L, h01⟩
+              -- labels of the wait code / the block are known names (`u4` resp. `u9`), `l3`, `l4`, `x4` are new
+              have w10 : ∀ l ∈ [a.a1, a.a2, a.b1, a.b2], l ∈ u10 := fun l hl => h910 l (h49 l (ha4 l hl))
+              have b10 : ∀ l ∈ [l1, l2, x1, x2, x3], l ∈ u10 := fun l hl => h910 l (hin9 l hl)
+              have hpW : ∀ l ∈ [a.a1, a.a2, a.b1, a.b2], Cmd.label l ∉
+                  ([Cmd.recvEpr c.remote c.sock (some c.ids) c.res, .set a.L 0, .label p3.1,
+                    .beq (.r a.L) (.imm ((bvs.length : Nat) : Int)) p4.1] : List Cmd) := by
+                intro l hl hm
+                simp at hm
+                exact f3 (by rw [← hm]; exact w10 l hl)
+              have hpB : ∀ l ∈ [l1, l2, x1, x2, x3], Cmd.label l ∉
+                  ([Cmd.recvEpr c.remote c.sock (some c.ids) c.res, .set a.L 0, .label p3.1,
+                    .beq (.r a.L) (.imm ((bvs.length : Nat) : Int)) p4.1] : List Cmd) ++
+                  waitBlockCode d.ly a.L a.s a.t a.e a.J a.a1 a.a2 a.b1 a.b2 c.res := by
+                intro l hl hm
+                rcases List.mem_append.mp hm with hm | hm
+                · simp at hm
+                  exact f3 (by rw [← hm]; exact b10 l hl)
+                · exact hnew l hl (ha4 l (label_mem_waitBlock hm))
+              rw [← hn] at hpost ⊢
+              refine seq_loop_runs (mem := mem) (rem := c.remote) (sock := c.sock) (x4 := x4) mv post bvs idv resv
+                hwf hlW hlB k hK hmi hmr hlen hres hpW hpB ?_ ?_ Q hpost regs
+              · intro hmv hm
+                obtain ⟨hx9, hx10⟩ := hx4 hmv
+                rcases List.mem_append.mp hm with hm | hm
+                · simp at hm
+                  exact f3 (by rw [← hm]; exact hx10)
+                · rcases List.mem_append.mp hm with hm | hm
+                  · exact hx9 (h49 x4 (ha4 x4 (label_mem_waitBlock hm)))
+                  · rcases List.mem_append.mp hm with hm | hm
+                    · exact hx9 (hin9 x4 (label_mem_corrBlock hm))
+                    · exact hpx4 hmv hm
+              · intro hm
+                rcases List.mem_append.mp hm with hm | hm
+                · simp at hm
+                  exact f4.1 hm
+                · rcases List.mem_append.mp hm with hm | hm
+                  · exact f4.2 (w10 _ (label_mem_waitBlock hm))
+                  · rcases List.mem_append.mp hm with hm | hm
+                    · exact f4.2 (b10 _ (label_mem_corrBlock hm))
+                    · rcases List.mem_append.mp hm with hm | hm
+                      · exact hpl4 hm
+                      · cases hmv : mv with
+                        | false => simp [hmv] at hm
+                        | true =>
+                          simp only [hmv, if_true] at hm
+                          have := label_mem_moveTail hm
+                          exact f4.2 (by rw [this]; exact (hx4 hmv).2)
+
+/-- **`per_pair_addressing_post` — the addressing statement at full strength for the post-routine /
+sequential path and the move-to-memory path.** For every configuration with corrections expected, every
+post routine made of straight-line commands that do not write the pair register (`Cmd.simpleFor L`:
+classical writes to other registers, gates, moves, frees, waits — in particular the empty routine; such
+a routine satisfies `PostOk` and defines no label), every number of pairs, every Bell tuple and every
+qubit-id array: the emitted program terminates, and for i = 0 … n−1 in order it applies exactly the
+rotations selected by pair i's Bell value to `t.pick (ids[i])` — pair i's own qubit: `t = loaded` on the
+post-routine path, and on the move path `t = setZero` with all stored ids 0 (`targets_of_paths`,
+`move_path_ids`) — followed by the post routine's own events and the move. No "block executed alone"
+caveat is left. -/
+theorem per_pair_addressing_post (d : Data) (c : Config) (mv : Bool) (code0 : List Cmd)
+    (he : c.expect = true) (h : emitSeq d c mv = some code0) (k : Nat) (hK : d.ly.okFields = (k : Int)) :
+    ∃ (L : Nat) (l3 l4 : String) (W B T : List Cmd),
+      code0 = seqLoopCode (.recvEpr c.remote c.sock (some c.ids) c.res) L c.n l3 l4 W B [] T ∧
+      ∀ (post : List Cmd), post.all (Cmd.simpleFor L) = true →
+      ∀ (mem : Mem) (bvs idv resv : List Int), bvs.length = c.n → mem c.ids = some idv →
+        mem c.res = some resv → idv.length = bvs.length → ResultsHold d.ly resv bvs →
+      ∀ (regs : Nat → Int), ∃ regs' all,
+        Reaches (seqLoopCode (.recvEpr c.remote c.sock (some c.ids) c.res) L c.n l3 l4 W B post T) mem
+          ⟨0, regs, []⟩
+          ⟨(seqLoopCode (.recvEpr c.remote c.sock (some c.ids) c.res) L c.n l3 l4 W B post T).length, regs', all⟩ ∧
+        IterEvents (SeqIter d.sp (if mv then d.tMove else d.tPost) (fun _ _ => True) mv c.n bvs idv) 0 c.n all := by
+  obtain ⟨L, l3, l4, x4, W, B, T, hc, hW, hB, hrun⟩ := post_path_loop_runs d c mv code0 he h k hK
+  refine ⟨L, l3, l4, W, B, T, hc, ?_⟩
+  intro post hs mem bvs idv resv hn hmi hmr hlen hres regs
+  exact hrun post (simple_no_label hs l4) (fun _ => simple_no_label hs x4) mem bvs idv resv hn hmi hmr hlen hres
+    _ (simple_postOk hW hB hs) regs
+
+/-- with the empty post routine on the post-routine / sequential path the trace is exactly the demanded
+one (`required` when the target is `loaded`, which it is: `targets_of_paths`) -/
+theorem per_pair_addressing_post_empty (d : Data) (c : Config) (code0 : List Cmd)
+    (he : c.expect = true) (h : emitSeq d c false = some code0) (k : Nat) (hK : d.ly.okFields = (k : Int))
+    (mem : Mem) (bvs idv resv : List Int) (hn : bvs.length = c.n) (hmi : mem c.ids = some idv)
+    (hmr : mem c.res = some resv) (hlen : idv.length = bvs.length) (hres : ResultsHold d.ly resv bvs)
+    (regs : Nat → Int) :
+    ∃ regs', Reaches code0 mem ⟨0, regs, []⟩ ⟨code0.length, regs', pairEvents d.sp d.tPost (bvs.zip idv)⟩ := by
+  obtain ⟨L, l3, l4, x4, W, B, T, hc, hW, hB, hrun⟩ := post_path_loop_runs d c false code0 he h k hK
+  have hpo : PostOk (seqLoopCode (.recvEpr c.remote c.sock (some c.ids) c.res) L c.n l3 l4 W B [] T) mem 43
+      ([] : List Cmd).length L (fun _ pe => pe = []) := by
+    intro i r tr hL
+    exact ⟨r, [], by simpa using Reaches.refl _, hL, rfl⟩
+  obtain ⟨regs', all, hr, hI⟩ := hrun [] (by simp) (by simp) mem bvs idv resv hn hmi hmr hlen hres _ hpo regs
+  rw [← hc] at hr
+  rw [← hn] at hI
+  have := iterEvents_pairs hlen hI (by omega)
+  simp only [Bool.false_eq_true, if_false, List.drop_zero] at this
+  exact ⟨regs', by rw [← this]; exact hr⟩
+
+/-- non-vacuity: a straight-line post routine (a gate, a classical write, a free) and the layout constant -/
+example : ([Cmd.rot ⟨.x, 16, 4⟩ 5, .set 7 3, .qfree 5].all (Cmd.simpleFor 0) = true) ∧
+    Gen.layout.okFields = ((10 : Nat) : Int) := by decide
 
 end NQ.C10
